@@ -1434,7 +1434,7 @@ func init() {
 	register(&Check{
 		ID:          "C01",
 		Run:         runC01,
-		Explanation: "Decides structural necessary conditions of 'a failed or aborted operation never damages or leaves files': (R1 PAIR) for every call site of a staging acquisition (api.openStagedOutput*, cli.streamInOutForOperation, cli.readSeekerFromStdin, cli.create*StreamOutput, pdfcpu.createWriteFile/createStagedFile/openStagedFile, the raw createTemp/openExclusive operations, the cut writer's createTemp): on every CFG path from the acquisition's success edge a disposal (cleanup/commit/finalize/finish*/remove) is executed or registered with defer before every return and before every call that can run document-processing code or caller-supplied callbacks (so a panic cannot skip it); functions that hand the resource to their caller are listed as owners and must dispose on every failure return; (R2 FLAG) a publishing call (commit / finishWriteFile / finalize) inside a deferred closure must be control-dependent on a captured local bool that starts false and is set true only after the last call that can fail or panic — a test of the error variable is rejected because a panic leaves it nil; (R3 WMC) destructive filesystem primitives (os.Create/WriteFile/Truncate/OpenFile with a write flag/Rename/Remove/RemoveAll/Chmod/CreateTemp/MkdirTemp/Mkdir*/Link/Symlink, fileutil.ReplaceFile/RemoveFile) and calls through operation-table fields bound to them occur only in the functions of the staging-layer table (one reason per entry) or the not-a-document-output table; (R4) inside the disposal routines every failure return after the temp exists passes the temp removal. R1 also covers the attachment-extraction reservations: reserveAttachmentOutputs hands the list of O_EXCL reservation files created so far back to its caller on every return after a creation (also with an error), and the caller releases it on the error path and by defer. NOT decided: that untouched bytes stay unchanged (follows from R3 but is not observed), OS call behaviour, multi-output policy of split/cut (earlier completed outputs are kept by documented design), error texts.",
+		Explanation: "Decides structural necessary conditions of 'a failed or aborted operation never damages or leaves files': (R1 PAIR) for every call site of a staging acquisition (api.openStagedOutput*, cli.streamInOutForOperation, cli.readSeekerFromStdin, cli.create*StreamOutput, pdfcpu.createWriteFile/createStagedFile/openStagedFile, the raw createTemp/openExclusive operations, the cut writer's createTemp): on every CFG path from the acquisition's success edge a disposal (cleanup/commit/finalize/finish*/remove) is executed or registered with defer before every return and before every call that can run document-processing code or caller-supplied callbacks (so a panic cannot skip it); functions that hand the resource to their caller are listed as owners and must dispose on every failure return; (R2 FLAG) a publishing call (commit / finishWriteFile / finalize) inside a deferred closure must be control-dependent on a captured local bool that starts false and is set true only after the last call that can fail or panic — a test of the error variable is rejected because a panic leaves it nil; (R3 WMC) destructive filesystem primitives (os.Create/WriteFile/Truncate/OpenFile with a write flag/Rename/Remove/RemoveAll/Chmod/CreateTemp/MkdirTemp/Mkdir*/Link/Symlink, fileutil.ReplaceFile/RemoveFile) and calls through operation-table fields bound to them occur only in the functions of the staging-layer table (one reason per entry) or the not-a-document-output table; (R4) inside the disposal routines every failure return after the temp exists passes the temp removal. R1 also covers the attachment-extraction reservations: reserveAttachmentOutputs hands the list of O_EXCL reservation files created so far back to its caller on every return after a creation (also with an error), and the caller releases it on the error path and by defer. (R4) inside the disposal routines themselves (stagedOutput.commit and cleanup, finishStagedFile, streamInOutFinalizer.finalize, temporaryInput.finalize) every return whose error can be non-nil has passed the removal of the staged file on every path; returns of a just-tested-nil error and constant nil are exempt (sibling agreement: 'error means the staged file is removed'). NOT decided: that untouched bytes stay unchanged (follows from R3 but is not observed), OS call behaviour, multi-output policy of split/cut (earlier completed outputs are kept by documented design), error texts.",
 		Rules: []string{
 			"C01.R1 PAIR: acquisition -> disposal on all exits, deferred before any call that can panic",
 			"C01.R2 FLAG: deferred publish keyed on a completion flag with set-last discipline",
@@ -1457,6 +1457,8 @@ func runC01(c *Ctx) {
 	runFSWMC(c, "C01.R3", nil)
 	checkAccumulatorsHandedBack(c)
 	checkFinalizeHelpers(c)
+	r.MinInst["C01.R4"] = 8
+	checkDisposalRoutines(c)
 }
 
 // c01Accumulators: functions that create several files in a loop and hand them to the caller as a slice — also on failure, so
@@ -1467,11 +1469,17 @@ var c01Accumulators = map[string]string{
 
 // checkAccumulatorsHandedBack (C01.R1): every return reachable after a creation returns the accumulated slice, not nil.
 func checkAccumulatorsHandedBack(c *Ctx) {
+	checkAccumulators(c, "C01.R1", c01Accumulators, nil)
+}
+
+// checkAccumulators: every return reachable after a creation hands the accumulated slice back — or, where a cleanup
+// function is named, has passed a call of it on the accumulated slice.
+func checkAccumulators(c *Ctx, rule string, table map[string]string, cleanup map[string]string) {
 	p, r := c.P, c.R
-	for fid, create := range c01Accumulators {
+	for fid, create := range table {
 		fn := p.Func(fid)
 		if fn == nil {
-			r.Bad("C01.R1", fid, "accumulator", "", "UNRESOLVED-ANCHOR")
+			r.Bad(rule, fid, "accumulator", "", "UNRESOLVED-ANCHOR")
 			continue
 		}
 		var createBlocks []*ssa.BasicBlock
@@ -1481,7 +1489,7 @@ func checkAccumulatorsHandedBack(c *Ctx) {
 			}
 		})
 		if len(createBlocks) == 0 {
-			r.Bad("C01.R1", fid, "accumulator", p.Pos(fn.Pos()), "UNRESOLVED-ANCHOR: no call of "+create)
+			r.Bad(rule, fid, "accumulator", p.Pos(fn.Pos()), "UNRESOLVED-ANCHOR: no call of "+create)
 			continue
 		}
 		after := map[*ssa.BasicBlock]bool{}
@@ -1512,8 +1520,40 @@ func checkAccumulatorsHandedBack(c *Ctx) {
 				return derivesSlice(x.X, d+1)
 			case *ssa.ChangeType:
 				return derivesSlice(x.X, d+1)
+			case *ssa.UnOp:
+				// a named result (or another local cell): what is stored into it
+				if al, ok := x.X.(*ssa.Alloc); ok && x.Op == token.MUL {
+					// the value a deferred cleanup sees is the one stored last before the return sequence
+					blk := x.Block()
+					for k := len(blk.Instrs) - 1; k >= 0; k-- {
+						if blk.Instrs[k] == ssa.Instruction(x) {
+							for m := k - 1; m >= 0; m-- {
+								if st, ok := blk.Instrs[m].(*ssa.Store); ok && st.Addr == ssa.Value(al) {
+									return derivesSlice(st.Val, d+1)
+								}
+							}
+							break
+						}
+					}
+					if st, _ := reachingStore(x); st != nil {
+						return derivesSlice(st.Val, d+1)
+					}
+					for _, rf := range *al.Referrers() {
+						if st, ok := rf.(*ssa.Store); ok && st.Addr == ssa.Value(al) && derivesSlice(st.Val, d+1) {
+							return true
+						}
+					}
+				}
 			}
 			return false
+		}
+		cleaned := map[*ssa.BasicBlock]bool{}
+		if cl := cleanup[fid]; cl != "" {
+			eachInstr(fn, func(b *ssa.BasicBlock, _ int, i ssa.Instruction) {
+				if cc, ref := callRef(i); cc != nil && ref == cl && len(cc.Common().Args) > 0 && derivesSlice(cc.Common().Args[0], 0) {
+					cleaned[b] = true
+				}
+			})
 		}
 		n := 0
 		for _, ret := range returnsOf(fn) {
@@ -1522,10 +1562,19 @@ func checkAccumulatorsHandedBack(c *Ctx) {
 			}
 			n++
 			pos := posOrFn(p, ret, fn)
-			if derivesSlice(ret.Results[0], 0) {
-				r.OK("C01.R1", fid, fmt.Sprintf("accumulator handed back@return#%d", n), pos, "the slice of files created so far is returned (also with an error), so the caller can remove them", true)
-			} else {
-				r.Bad("C01.R1", fid, fmt.Sprintf("accumulator handed back@return#%d", n), pos, "this return is reachable after files were created but does not hand the accumulated list back to the caller: the caller cannot remove the files created so far and they stay behind")
+			inlineCleanup := false
+			for b := range cleaned {
+				if b == ret.Block() || b.Dominates(ret.Block()) {
+					inlineCleanup = true
+				}
+			}
+			switch {
+			case derivesSlice(ret.Results[0], 0):
+				r.OK(rule, fid, fmt.Sprintf("accumulator handed back@return#%d", n), pos, "the slice of files created so far is returned (also with an error), so the caller (or a deferred cleanup reading the result) can remove them", true)
+			case inlineCleanup:
+				r.OK(rule, fid, fmt.Sprintf("accumulator handed back@return#%d", n), pos, "the files created so far were handed to "+cleanup[fid]+" before this return", true)
+			default:
+				r.Bad(rule, fid, fmt.Sprintf("accumulator handed back@return#%d", n), pos, "this return is reachable after files were created but neither hands the accumulated list back (a deferred cleanup reading the result sees nil) nor has passed a cleanup of it: the files created so far stay behind")
 			}
 		}
 	}
